@@ -28,6 +28,8 @@ def d1(ctx):
     for name, f in sorted(ci.methods.items()):
         if 'key' not in f.params:
             continue
+        if name.startswith('_') and not name.startswith('__'):
+            continue        # private helper: judged inlined into the public methods that use it
         ok, why, wit = True, '', None
         n = 0
         for p in ctx.paths(f, 'default'):
